@@ -34,6 +34,11 @@ class OJNIO(GameIO):
 
         return O2JMapSet.read_file(path)
 
+    def read_api(self, data, layout=None, raw_newlines=False):
+        from reamber.o2jam.O2JMapSet import O2JMapSet
+
+        return O2JMapSet.read(bytes(data))
+
     def cmp_read(self, den, a, layout=None) -> list[str]:
         out = []
         if den["has_fraction"]:
